@@ -639,3 +639,9 @@ mod tests {
         assert!(network_speed_sets.0[1].speed_set.is_none());
     }
 }
+
+// Verification hook (inert unless built with `--cfg nrel_altrios_verif` or under `cargo kani`).
+#[cfg(any(kani, nrel_altrios_verif))]
+mod verif_hook {
+    include!(concat!(env!("NREL_ALTRIOS_VERIF_DIR"), "/hooks/track__link__link_impl.rs"));
+}
